@@ -390,9 +390,18 @@ class C12(Scenario):
         return "+".join(sorted(parts)) or "none"
 
     # ------------------------------------------------------------------ shrinking beyond ddmin
-    def simplify(self, plan, phase="post"):
+    def simplify(self, plan, phase="post", target=None):
         nodes = plan["nodes"]
         units = plan["units"]
+        if phase == "pre" and target is not None:
+            # backward slice of the diverging form; only its own observation is kept
+            from sim.framework import slice_candidate
+
+            slot = target["detail"]["slot"]
+            q = slice_candidate(plan, [slot], is_program=lambda u: u["k"] in ("P", "obs"))
+            if q is not None:
+                q["units"] = [u for u in q["units"] if u["k"] != "obs" or u["op"][3] == slot]
+                yield q
         # drop a perturbed node
         if len(nodes) > 2:
             for i in range(1, len(nodes)):
